@@ -262,6 +262,8 @@ def expected_grammar(orig_bytes, opt):
 def run_c20(t, tier, res):
     wr = scratch.fresh_disk()
     menu = ["A1", "D1", "A2", "D2", "O1", "A3", "Y1", "X1", "K4", "O2", "D3", "A4", "A10", "D11", "O3", "K5", "D4"]
+    if t.chance(1, 4):
+        menu = menu + ["A60", "D40", "A100", "O99", "D101", "A228"]      # multi-digit / three-digit lengths
     spec = worlds.gen_syn(t, allow_m=t.chance(1, 2), max_pts=300, max_structs=6, max_vars=4, menu=menu,
                           pools=["normalised", "dyadic", "decimal"])
     rdir = os.path.join(wr, "Rules", "R")
